@@ -143,7 +143,9 @@ func (pw *prometheusWrapper) labelsToMap(labels []metrics.T) (ret map[string]str
 	}
 
 	for _, label := range labels {
-		ret[label.Name] = label.Value
+		// label values come from requests (a watched prefix, a key): the client library panics on a
+		// value that is not valid UTF-8
+		ret[label.Name] = strings.ToValidUTF8(label.Value, "\uFFFD")
 	}
 	return
 }
